@@ -572,7 +572,8 @@ def present(ctx, src, how=None, fresh=False):
     PRESENTED['report'] = None
     if how is None:
         PRESENTED['n'] += 1
-        how = {0: 'second-section', 4: 'after-verifying-other-code', 6: 'on-a-report-of-its-own', 8: 'after-sections-were-stopped', 10: 'attached-without-clearing'}.get(PRESENTED['n'] % 12, 'plain')
+        how = {0: 'second-section', 2: 'split-again-after-other-text-failed', 4: 'after-verifying-other-code', 6: 'on-a-report-of-its-own', 8: 'after-sections-were-stopped',
+               10: 'attached-without-clearing'}.get(PRESENTED['n'] % 12, 'plain')
         fresh = True
     if how == 'on-a-report-of-its-own':
         # the grader keeps this submission's report to herself and passes it to every question (kw()); the default report holds
@@ -629,6 +630,19 @@ def present(ctx, src, how=None, fresh=False):
         set_source('an_earlier_submission = 1\nprint(an_earlier_submission)\n')
         contextualize_report(src, clear=False)
         done = how
+    elif how == 'split-again-after-other-text-failed':
+        # the submission was set and verified, the grader then had some text checked that does not parse, and set the submission
+        # again asking for sections (it has no markers: the whole file is the current code)
+        from pedal.source import set_source, verify
+        set_source(src)
+        verify('this is ( not python\n')
+        for f in [f for f in MAIN_REPORT.feedback if (f.category or '').lower() == 'syntax']:
+            MAIN_REPORT.feedback.remove(f)
+        set_source(src, sections=True)
+        if MAIN_REPORT.submission.main_code == src:
+            done = how
+        else:
+            clear_report()
     if done:
         PRESENTED['how'] = done
         ctx.seen('how_the_program_is_presented', done)
